@@ -280,9 +280,8 @@ def correlogram_task(datatype, method, cross=False):
             dt = "complex" if datatype == "complex" else "float"
             x = dom.input_array("x", N, dt)
             y = dom.input_array("y", N, dt) if cross else None
-            r = I.call_qual("spectrum.correlog.CORRELOGRAMPSD", x, y, lag, "hamming", "biased", n, {}, method)
             I.st = dict(x=x, y=y, N=N, n=n, lag=lag, dt=dt)
-            return r
+            return I.call_qual("spectrum.correlog.CORRELOGRAMPSD", x, y, lag, "hamming", "biased", n, {}, method)
 
         def post(P):
             st = P.interp.st
